@@ -145,3 +145,15 @@ pub proof fn lemma_accepts_on_distinct_ports_commute(m: Map<u16, AuditEntry>, p:
 {
     assert(m.remove(p).remove(q) =~= m.remove(q).remove(p));
 }
+
+// "Requests on one connection are never evaluated with the identity of a different connection": the context handed
+// to the per-request handler carries the same attribution as the one built at accept time for this connection
+// (everything except the per-context log queue, which ConnectionLogger::clone deliberately does not copy)
+pub open spec fn same_attribution(a: TcpConnectionContext, b: TcpConnectionContext) -> bool {
+    &&& a.id == b.id
+    &&& a.client_addr == b.client_addr
+    &&& a.claims == b.claims
+    &&& a.destination_ip == b.destination_ip
+    &&& a.destination_port == b.destination_port
+    &&& a.sender == b.sender
+}
